@@ -253,7 +253,7 @@ def cmp_sched(prop, case, impl, model):
         return [('disagree', 'sched:setup', str(impl.get('dialerr')) + ' ' + str(model.get('modelerror'))[:300])]
     out = []
     j = model.get('judge', '?')
-    if j != 'ok' and prop in ('C05', 'C16'):
+    if j != 'ok' and prop in ('C05', 'C16', 'C02'):
         out.append(('violation', 'sched:' + j.replace('violation:', ''), 'reference decoder on the bytes written under concurrency: ' + j))
     g = model.get('goroutines', '?')
     if g != 'ok' and prop in ('C20', 'C05'):
@@ -689,9 +689,11 @@ PROPS = {
         technique='Coq proofs (induction over event histories; stream-level reader theorem) + differential runs against a scripted raw peer',
     ),
     'C02': dict(
-        suites=['wire-out'],
+        suites=['wire-out', 'sched'],
+        race_suites=['sched'],
         rule='wire-out suite: seeded programs of Write / Writer(chunks) / Ping / Close on a library endpoint (both roles x {no compression, 4 (cnct,snct) '
              'combinations incl. asymmetric} x thresholds {default,1,64,1000}); sizes from the framing/bufio/window boundary set; the raw peer records every byte. '
+             'Plus the sched suite (2-8 concurrent writers, a pinger, a closer): the same conformance judge on what concurrent writers put on the wire, incl. that no masking key occurs twice. '
              'non-trivial = more than one op or > 200 wire bytes; distinct = distinct case line',
         trusted=COMMON_TRUSTED + [FLATE_ASSUME, 'mask keys are crypto/rand input to the model (read off the wire); "keys differ between frames" is a test in the judge, not a theorem'],
         assumptions=[FLATE_ASSUME, 'bufio.Writer is transparent for the byte sequence (every operation ends with a flushed final frame)'],
